@@ -47,7 +47,7 @@ def _invariance(prop: str) -> dict:
         shutil.rmtree(tmp, ignore_errors=True)
     # structural transformations of the whole tree: instance keys may change, but nothing may become fail/undecided
     from . import transforms
-    for kind in ("swap-if-else", "else-after-return", "split-and"):
+    for kind in ("swap-if-else", "else-after-return", "split-and", "name-the-test"):
         tmp = tempfile.mkdtemp(prefix=f"verif-invariance-{prop}-")
         try:
             shutil.copytree(os.path.join(repo_root(), "rope"), os.path.join(tmp, "rope"), ignore=shutil.ignore_patterns("__pycache__"))
